@@ -515,8 +515,10 @@ Proof.
   unfold app_stack. eapply (lx_bind _ anyv).
   { destruct e; [unfold expire_mw|]; go. }
   intros sess _. cbv zeta.
-  eapply (lx_bind _ anyv). { destruct r; [apply lx_remember_mw|apply lx_ret; exact I]. }
-  intros _ _. eapply (lx_bind _ anyv). { apply lx_auth_middleware. exact P_path. }
+  eapply (lx_bind _ anyv).
+  { destruct r; [|apply lx_ret; exact I]. eapply (lx_bind _ anyv); [apply lx_remember_mw|].
+    intros _ _. unfold remembered_view. apply lx_get_h_bind. intros h0 _. destruct (h_cpid h0); apply lx_ret; exact I. }
+  intros sess2 _. eapply (lx_bind _ anyv). { apply lx_auth_middleware. exact P_path. }
   intros ok _. destruct ok; [|apply lx_ret; exact I]. cbn [negb].
   eapply (lx_bind _ anyv). { destruct l; [apply lx_lock_mw; exact P_path|apply lx_ret; exact I]. }
   intros ok _. destruct ok; [|apply lx_ret; exact I]. cbn [negb].
